@@ -1,4 +1,4 @@
-//go:build verif
+//go:build verif && !nohook_c17
 
 package secs1
 
@@ -11,6 +11,9 @@ import (
 
 	"github.com/arloliu/go-secs/v2/hsms"
 )
+
+// VC17Hook: VC17Asm drives the library's real assembler.
+const VC17Hook = true
 
 // VC17Asm wraps one real assembler.
 type VC17Asm struct {
